@@ -338,6 +338,7 @@ harness(void)
 	V_ASSERT(ret == 0 || ret == -1, "scan returns 0 or -1");
 	V_ASSERT((ret == 0) == (all_wf && agree),
 			"C17: mark definitions are accepted iff all are well-formed and no two threads disagree on title, channel type or a label");
+	V_ASSUME((ret == 0) == (all_wf && agree));   /* assert-then-assume: the table is examined only when the verdict is right */
 
 	if (ret != 0) {
 		if (!all_wf) V_REACH("rejected-malformed-definition");
